@@ -395,6 +395,58 @@ def _writeback(ctx):
         ctx.ob("R24.4", name + ":result", ok and bad is None, "the voxel at height l of pillar p holds layer l of the candidate chosen for p, returned through the straight-through estimator of the input" + (f" — differs at {bad[0]}" if bad else ""), bad[1] if bad else "all voxels", bad[2] if bad else "candidate[n(p)][l]")
 
 
+def _background_index(ctx):
+    """PillarDiscretization.init_module: the background index handed to the column enumeration names the background
+    material in the same (sorted) material order that __call__ uses for the candidates' values — whatever the
+    dictionary's insertion order, with the default and with an explicit background."""
+    from ..harness import stub_repo_calls
+
+    ix = ctx.index
+    P = ix.cls("fdtdx.objects.device.parameters.discretization.PillarDiscretization")
+    ctx.unit(P.lookup_method("init_module").where())
+    M = ix.cls("fdtdx.materials.Material")
+
+    def mat(eps, nm):
+        t = tuple(float(eps) if i in (0, 4, 8) else 0.0 for i in range(9))
+        one = tuple(1.0 if i in (0, 4, 8) else 0.0 for i in range(9))
+        zero = (0.0,) * 9
+        return Obj(M, dict(permittivity=t, permeability=one, electric_conductivity=zero, magnetic_conductivity=zero), nm)
+
+    eps = {"air": 1.0, "glass": 2.25, "si": 12.25}
+    order = sorted(eps, key=eps.get)
+    n = 0
+    bad = []
+    for names in itertools.permutations(eps):
+        for explicit in (None,) + tuple(names):
+            for axis in range(3):
+                it = ctx.fresh_interp()
+                seen = {}
+                table = NdArr((1, 3), [0, 0, 0])
+
+                def cai(it_, a, k, _seen=seen, table=table):
+                    _seen.update(k)
+                    _seen["args"] = a
+                    return table
+
+                stub_repo_calls(it, {"fdtdx.objects.device.parameters.utils.compute_allowed_indices": cai})
+                mats = {nm: mat(eps[nm], nm) for nm in names}
+                o = Obj(P, dict(axis=axis, single_polymer_columns=False, distance_metric="euclidean", background_material=explicit), "pillar")
+                shape = (2, 3, 4)
+                try:
+                    out = it.call_method(o, "init_module", config=Obj(None, {}, "cfg"), materials=mats, matrix_voxel_grid_shape=shape, single_voxel_size=(1.0, 1.0, 1.0), output_shape={"p": shape})
+                except Raised as r:
+                    raise AnalysisError(f"PillarDiscretization.init_module raises: {r}")
+                n += 1
+                want = order.index(explicit if explicit is not None else "air")
+                got = seen.get("fill_holes_with_index")
+                got = list(got) if isinstance(got, (list, tuple)) else got
+                stored = out.attrs.get("_allowed_indices") if isinstance(out, Obj) else None
+                if got != [want] or seen.get("num_layers") != shape[axis] or list(seen.get("indices") or []) != [0, 1, 2] or seen.get("single_polymer_columns") is not False or stored is not table:
+                    bad.append((names, explicit, axis, dict(fill=got, num_layers=seen.get("num_layers"), indices=seen.get("indices"), stored=stored), [want]))
+    ctx.ob("R24.5", "PillarDiscretization.init_module:background", not bad, "the column table is enumerated over all material indices for the pillar axis' height with the background's index in the permittivity-sorted material order (the order of the candidates' values in __call__), for the default (lowest permittivity) and for an explicit background, whatever the dictionary's insertion order, and is stored as the candidate table" + f" ({n} scopes: 6 orders x 4 backgrounds x 3 axes)", bad[:3], "sorted-order index")
+    ctx.require_count("R24.5 scopes", n, 72)
+
+
 def run_thorough(ctx):
     _median(ctx, cases=THOROUGH_CASES)
     _allowed(ctx, heights=(4, 5))
@@ -405,6 +457,7 @@ def run(ctx):
     _allowed(ctx)
     _distances(ctx)
     _writeback(ctx)
+    _background_index(ctx)
     ctx.require_count("C24", len(ctx.obligations), 24)
     ctx.trusted_base += [
         "direct n-d convolution model (true convolution, zero outside, 'same' cropping); np.pad model on concrete arrays",
